@@ -227,8 +227,8 @@ func runCheck(cfg *RunConfig) int {
 			vio += ls.violated
 			inc += ls.inconclusive
 		}
-		fmt.Printf("harness %s: paths=%d completed=%d infeasible=%d panicked=%d branches=%d obligations=%d discharged=%d violated=%d inconclusive=%d feas-unknown=%d model-hits=%d covers=%d wall=%.1fs\n",
-			hn, h.paths, h.completed, h.infeasible, h.panicked, h.branchTotal, obl, dis, vio, inc, h.feasUnknown, h.modelHits, len(h.covers), wall)
+		fmt.Printf("harness %s: paths=%d completed=%d infeasible=%d panicked=%d branches=%d obligations=%d discharged=%d violated=%d inconclusive=%d feas-unknown=%d model-hits=%d search-hits=%d covers=%d wall=%.1fs\n",
+			hn, h.paths, h.completed, h.infeasible, h.panicked, h.branchTotal, obl, dis, vio, inc, h.feasUnknown, h.modelHits, h.searchHits, len(h.covers), wall)
 		for k, n := range h.aborted {
 			fmt.Printf("  ABORTED kind=%s paths=%d\n", k, n)
 			if k == "unsupported" || k == "error" || k == "unwind" {
